@@ -166,7 +166,7 @@ PROPS = {
              "non-trivial = >2 probes executed; distinct = distinct case lines",
         trusted=SEARCH_TRUST + ["absolute hook counts depend on the hash order of the store (measured) and are not compared; their difference is"],
         assumptions=[],
-        open=["lifting the one-step lifecycle lemmas to all reachable states through the re-entrant FD propagation loop is carried by the probes on the real engine"],
+        open=["the global lifecycle invariant is proved for pure tree programs (C22_count_tree); for programs with FD / CLP(Z) constraints (re-entrant propagation loop) it is carried by the probes on the real engine"],
     ),
     "C24": dict(
         title="library list relations (member, member1, append, rember, permute, distinct, cons, first, rest, empty)",
